@@ -3,8 +3,10 @@ Model of the freezer pass over the store model (core Lean only).
 
 Sources followed: `shared/src/shared.rs` (`freeze`, `wipe_out_frozen_data`), `freezer/src/freezer.rs`
 (`freeze`: contiguous from `freezer.number()`, parent-hash check, stop at the first missing block),
-`store/src/write_batch.rs` (`delete_block_body`, `delete_block`), `store/src/store.rs` (the accessors;
-only `get_block` and `get_transaction_with_info` dispatch on `freezer.number()`).
+`store/src/write_batch.rs` (`delete_block_body`, `delete_block`), `store/src/store.rs` (the accessors:
+`get_block`, `get_packed_block` and `get_transaction_with_info` ask the freezer first, the six part
+accessors fall back to `get_frozen_block` when their kv row is gone — the repair of F18; the code
+before it is kept as `…PreF18`, the code before the repair of F17 as `getBlockPreF17`).
 
 State on top of the C02 view: which blocks still have their header row / their body rows
 (COLUMN_BLOCK_BODY, _UNCLE, _EXTENSION, _PROPOSAL_IDS and the NUMBER_HASH row are inserted together by
@@ -129,9 +131,34 @@ inductive Ans (α : Type) where
   | panic
 deriving DecidableEq, Repr
 
-/-- `get_block(hash)`: header from the kv store; below `freezer.number()` the freezer item *at that
-height*; else the body rows (`expect` on the uncles row) -/
+/-- `get_frozen_block(hash)` (the helper of the F18 repair, formerly the freezer branch of
+`get_block`): nothing without a header row; below `freezer.number()` the freezer item *at that
+height*, and only if it is the block asked for (the hash test is the repair of F17, /repo ea444a5) -/
+def getFrozen (s : FS) (id : Nat) : Option Block :=
+  if !s.hdr id then none else
+  match s.v.r.bodies id with
+  | none => none
+  | some blk =>
+    if 0 < blk.number && blk.number < frozenNumber s then
+      match s.frozen[blk.number - 1]? with
+      | some fb => if fb.id = id then some fb else none
+      | none => none
+    else none
+
+/-- `get_block(hash)` as /repo has it (F17 and F18 repaired): header from the kv store; the frozen
+block if `get_frozen_block` has it; else the body rows (`expect` on the uncles row) -/
 def getBlock (s : FS) (id : Nat) : Ans Block :=
+  if !s.hdr id then .none else
+  match s.v.r.bodies id with
+  | none => .none
+  | some blk =>
+    match getFrozen s id with
+    | some fb => .some fb
+    | none => if s.body id then .some blk else .panic
+
+/-- `get_block(hash)` BEFORE the repair of F17 (regression witnesses only): below
+`freezer.number()` the freezer item at that height, whatever its hash -/
+def getBlockPreF17 (s : FS) (id : Nat) : Ans Block :=
   if !s.hdr id then .none else
   match s.v.r.bodies id with
   | none => .none
@@ -142,30 +169,42 @@ def getBlock (s : FS) (id : Nat) : Ans Block :=
       | none => .none
     else if s.body id then .some blk else .panic
 
-/-- `get_block(hash)` with the repair proposed for finding F17 (/verif/work/C10-fix-F17.diff): the
-freezer item is returned only if it is the block asked for; otherwise the kv rows are read -/
-def getBlockF17 (s : FS) (id : Nat) : Ans Block :=
-  if !s.hdr id then .none else
-  match s.v.r.bodies id with
-  | none => .none
-  | some blk =>
-    let kv : Ans Block := if s.body id then .some blk else .panic
-    if 0 < blk.number && blk.number < frozenNumber s then
-      match s.frozen[blk.number - 1]? with
-      | some fb => if fb.id = id then .some fb else kv
-      | none => .none
-    else kv
-
 def getHeader (s : FS) (id : Nat) : Option Block :=
   if s.hdr id then s.v.r.bodies id else none
 
-/-- the part accessors (`get_block_body`, `get_cellbase`, `get_block_uncles`,
-`get_block_proposal_txs_ids`, `get_block_extension`, `get_packed_block`) read the kv rows only -/
+/-- the part accessors as /repo has them since the repair of F18 (`get_block_body`,
+`get_block_txs_hashes`, `get_cellbase`, `get_block_uncles`, `get_block_proposal_txs_ids`,
+`get_block_extension`): the kv rows if they are there (no header test), else the frozen block.  The
+block stands for all its parts (one presence flag, see the header of this file); the named
+projections are below. -/
 def getPart (s : FS) (id : Nat) : Option Block :=
+  if s.body id then s.v.r.bodies id else getFrozen s id
+
+/-- `get_packed_block`: the frozen block first, else header row + body rows -/
+def getPacked (s : FS) (id : Nat) : Option Block :=
+  match getFrozen s id with
+  | some fb => some fb
+  | none => if s.hdr id && s.body id then s.v.r.bodies id else none
+
+/-- the part accessors BEFORE the repair of F18 (regression witness only): kv rows only -/
+def getPartPreF18 (s : FS) (id : Nat) : Option Block :=
   if s.body id then s.v.r.bodies id else none
 
-def getPacked (s : FS) (id : Nat) : Option Block :=
+def getPackedPreF18 (s : FS) (id : Nat) : Option Block :=
   if s.hdr id && s.body id then s.v.r.bodies id else none
+
+/-! the named part accessors, as projections of `getPart` -/
+
+/-- `get_block_body` (empty when nothing is stored) -/
+def getBody (s : FS) (id : Nat) : List Tx := ((getPart s id).map (·.txs)).getD []
+/-- `get_block_txs_hashes` -/
+def getTxsHashes (s : FS) (id : Nat) : List Nat := (getBody s id).map (·.id)
+/-- `get_cellbase` -/
+def getCellbase (s : FS) (id : Nat) : Option Tx := (getPart s id).bind (·.txs.head?)
+/-- `get_block_uncles` -/
+def getUncles (s : FS) (id : Nat) : Option (List Nat) := (getPart s id).map (·.uncles)
+/-- `get_ancestor(tip, n)` for a main-chain base: number index, then the header -/
+def getAncestor (s : FS) (n : Nat) : Option Block := (s.v.m.index n).bind (getHeader s)
 
 /-- `get_transaction_with_info` -/
 def getTx (s : FS) (txId : Nat) : Option (Tx × TxInfo) :=
